@@ -153,6 +153,8 @@ struct Out {
       }
       return false;
    }
+   // a digest of the results of the current case, compared by the driver with the digest of the same case computed in a process of its own
+   void digest(const std::string& h) { std::fprintf(f, "{\"t\":\"digest\",\"w\":%d,\"i\":%ld,\"h\":\"%s\"}\n", a.worker, cur, esc(h).c_str()); }
    void sample(const J& c, int cap = 3) {
       if (nsamples < cap && a.worker < 4) { ++nsamples; std::fprintf(f, "{\"t\":\"sample\",\"case\":%s}\n", wrap(c).c_str()); }
    }
